@@ -181,6 +181,51 @@ def do_request(data, req, index):
         return classify(e), [], None
 
 
+AUX_CALLS = ["get_fields", "get_axis_size", "get_axis_values", "get_axis_descriptions", "get_legend", "get_names",
+             "get_full_names", "get_short_names", "get_variable_and_units", "get_num_members", "get_axis_locator",
+             "attr:times", "attr:leadtimes", "attr:locations", "attr:thresholds", "attr:quantiles", "attr:variable",
+             "attr:num_inputs"]
+
+
+def _aux_repr(val):
+    if isinstance(val, np.ndarray):
+        return "nd:" + adigest(val) if val.dtype.kind in "fiub" else "nd:%s:%s" % (val.shape, val.dtype)
+    if isinstance(val, (list, tuple)):
+        items = [_aux_repr(x) for x in list(val)[:200]]
+        if any(not isinstance(x, (int, float, np.integer, np.floating)) for x in list(val)[:200]):
+            items = sorted(items)       # collections of objects may come out of hash-ordered containers
+        return "[%s]" % ",".join(items)
+    if isinstance(val, (int, float, str, bool)) or val is None:
+        return repr(val)
+    nm = getattr(val, "name", None)
+    if callable(nm):
+        try:
+            return "%s:%s" % (type(val).__name__, nm())
+        except Exception:
+            pass
+    return type(val).__name__
+
+
+def do_aux(data, op):
+    """Call one public accessor; returns a canonical, address-free description of the outcome."""
+    call = op["call"]
+    try:
+        with Quiet():
+            if call.startswith("attr:"):
+                val = getattr(data, call[5:])
+            elif call in ("get_axis_size", "get_axis_values", "get_axis_descriptions", "get_axis_locator"):
+                val = getattr(data, call)(mk_axis(op.get("axis", "Time")))
+                if call == "get_axis_locator":
+                    val = type(val).__name__
+            elif call == "get_num_members":
+                val = data.get_num_members(op.get("input", 0))
+            else:
+                val = getattr(data, call)()
+        return {"status": "ok", "val": hashlib.sha256(_aux_repr(val).encode()).hexdigest()[:12]}
+    except (SystemExit, Exception) as e:
+        return {"status": classify(e)}
+
+
 def input_snapshot(inp):
     """Digests of every array a text input holds (NetCDF inputs re-read the file on access)."""
     out = {}
@@ -389,7 +434,7 @@ class DataSim(object):
         fired = Counter()
         fired.update(self.env.fired)
         fired.update(self.cf.fired)
-        for k in ("fail_request", "rebuild_on_same_inputs", "rng_perturb", "replace_file_while_open"):
+        for k in ("fail_request", "rebuild_on_same_inputs", "rng_perturb", "replace_file_while_open", "aux_call"):
             if self.stats.get("fired:" + k):
                 fired[k] += self.stats["fired:" + k]
         return {"violation": self.violation, "digest": digest, "stats": dict(self.stats), "fired": dict(fired),
@@ -517,6 +562,15 @@ class DataSim(object):
             return
         if kind == "req":
             self.step_req(step, op, rec)
+            return
+        if kind == "aux":
+            # another public accessor of the dataset object called between score requests, the way verif's
+            # outputs and metrics do (get_axis_values, get_fields, get_legend, ...): a perturbation of the
+            # history only - its own result is logged (determinism) but carries no verdict
+            data = self.datasets[op.get("ds", 0) % len(self.datasets)]
+            rec["aux"] = do_aux(data, op)
+            self.stats["fired:aux_call"] += 1
+            self.emit(rec)
             return
         for o in self.oracles:
             if o.handle(self, step, op, rec):
